@@ -12,6 +12,7 @@ Decided (FACTS: forward must-analysis with value numbering, path-sensitive guard
 Not decided: that estimates return "to within normal tolerance" after the dropout (quantitative).
 """
 import ast
+LINT_EXTRA_FILES = ("ahrs/common/orientation.py",)      # acc2q / am2q / ecompass helpers the filters start from
 from sa.facts import Facts
 from sa.model import stmt_text
 
